@@ -44,7 +44,7 @@ CALLS = {
 }
 
 
-def client_run(calls, chooser, allow_faults=True, cancel=False, seed=0):
+def client_run(calls, chooser, allow_faults=True, cancel=False, seed=0, bare_status=False):
     loop = P.fresh(seed)
     trace = []
     try:
@@ -52,6 +52,7 @@ def client_run(calls, chooser, allow_faults=True, cancel=False, seed=0):
         srv.put_file(b'/f', b'x' * 10)
         srv.put_file(b'/g', b'y' * 20)
         srv.links[b'/l'] = b'/f'
+        srv.bare_status = bare_status
         start, conn = RS.start_client(loop, srv)
         for _ in range(20):
             loop.quiesce()
@@ -151,16 +152,17 @@ def client_run(calls, chooser, allow_faults=True, cancel=False, seed=0):
 
 
 def client_worker(job):
-    calls, bound, cancel = job
+    calls, bound, cancel = job[:3]
+    bare = len(job) > 3 and job[3]
     acc = core.Acc()
 
     def check(obs, ch):
-        acc.add(core.digest((calls, cancel, tuple(obs['trace']), tuple(obs['results']))), transitions=obs['steps'],
+        acc.add(core.digest((calls, cancel, bare, tuple(obs['trace']), tuple(obs['results']))), transitions=obs['steps'],
                 sample={'calls': calls, 'replies': obs['trace'], 'results': obs['results']} if len(ch.labels()) == 2 else None)
         for k, d in obs['viol']:
             acc.violation('match:%s:%s' % (k, '+'.join(calls)), d,
-                          {'kind': 'client', 'calls': list(calls), 'choices': ch.choices, 'cancel': cancel})
-    core.explore_dfs(lambda ch: client_run(calls, ch, cancel=cancel), bound, check)
+                          {'kind': 'client', 'calls': list(calls), 'choices': ch.choices, 'cancel': cancel, 'bare': bare})
+    core.explore_dfs(lambda ch: client_run(calls, ch, cancel=cancel, bare_status=bare), bound, check)
     return acc
 
 
@@ -941,6 +943,8 @@ def main(tier, seed):
         print('HARNESS-NONDETERMINISM')
         return 2
     jobs = [(cs, bound, False) for cs in call_sets] + [(cs, bound, True) for cs in call_sets if len(cs) == 3]
+    # a server that sends status codes alone (no message, no language tag): EOF, NO_SUCH_FILE, ... mean the same
+    jobs += [(cs, 1, False, True) for cs in call_sets if 'missing' in cs or 'listdir' in cs]
     acc = core.pmap(client_worker, core.rotate(jobs, seed))
     n_a = acc.evaluations
     sj = []
@@ -985,7 +989,7 @@ def main(tier, seed):
 def replay(rep):
     r = rep['replay']
     if r['kind'] == 'client':
-        obs = client_run(tuple(r['calls']), core.Chooser(r['choices']), cancel=r.get('cancel', False))
+        obs = client_run(tuple(r['calls']), core.Chooser(r['choices']), cancel=r.get('cancel', False), bare_status=r.get('bare', False))
         v = obs['viol']
         print(json.dumps({'replay': r, 'replies': obs['trace'], 'violations': v}, indent=1, default=repr))
     elif r['kind'] == 'server':
